@@ -16,7 +16,7 @@ import uuid
 from vf.core.framework import Recorder
 from vf.instruments import monitors as mon
 from vf.props import common, online
-from vf.props.c20 import ScriptedDNS
+from vf.props.c20 import ScriptedDNS, same_dns_name
 from vf.ref import cms, gkdi as rg, sd as rsd
 from vf.refdc import frontends as fe
 from vf.refdc.core import DCConfig, DCCore
@@ -165,7 +165,7 @@ def run_online(spec, rec: Recorder):
                     if use_dns:
                         rec.count("dns_discoveries")
                         exp_q = "_ldap._tcp.dc._msdcs" + ("." + cfg.domain if cfg.domain else "")
-                        if not dns_.queries or any(qq[1] != exp_q for qq in dns_.queries):
+                        if not dns_.queries or any(not same_dns_name(qq[1], exp_q) for qq in dns_.queries):
                             rec.violation("dns-query", f"{api}: DNS queries {dns_.queries}, expected SRV lookups for {exp_q} only", wit)
                         if dc.connect_log and dc.connect_log[0][1] != host:
                             rec.violation("dns-host", f"{api}: connected to {dc.connect_log[0]} but discovery chose {host}", wit)
